@@ -24,6 +24,9 @@ type WalCase struct {
 	// DecodeRecord allocate 16 MiB..2 GiB (make([]byte, length) before the file size is known), so it
 	// is only done by one static case of the thorough tier, in a single process.
 	TopBits bool     `json:"topbits,omitempty"`
+	// Buf is wal.Config.BufferSize (0 = 4096): with 16 or 64 most records are larger than the
+	// reader's buffer and take the large-frame path of the record iterator.
+	Buf int `json:"buf,omitempty"`
 	Excl    []string `json:"excl,omitempty"`
 }
 
@@ -38,6 +41,10 @@ func runWal(c WalCase, r *pbt.Rec) error {
 	dir, cleanup := pbt.TempDir("c14w")
 	defer cleanup()
 	cfg := wal.Config{Dir: dir, BufferSize: 4096}
+	if c.Buf > 0 {
+		cfg.BufferSize = c.Buf
+		r.Label(fmt.Sprintf("wal:buffer=%d", c.Buf))
+	}
 	m, err := wal.Open(cfg)
 	if err != nil {
 		return fmt.Errorf("harness: %v", err)
@@ -277,6 +284,7 @@ func genWal(t *rapid.T) WalCase {
 		c.Segs = append(c.Segs, seg)
 	}
 	c.Pick = rapid.SliceOfN(rapid.Uint32(), 3, 3).Draw(t, "pick")
+	c.Buf = rapid.SampledFrom([]int{0, 0, 16, 64}).Draw(t, "buf")
 	return c
 }
 
@@ -285,5 +293,6 @@ func staticWal() []WalCase {
 		{Limit: 1 << 20, Segs: [][]WRec{{{T: 0, N: 0}}}, TopBits: pbt.Tier() == "thorough"},
 		{Limit: 1 << 20, Segs: [][]WRec{{{T: 1, N: 1, Seed: 1}, {T: 2, N: 7, Seed: 2}, {T: 3, N: 0}}}},
 		{Limit: 1 << 20, Segs: [][]WRec{{{T: 0, N: 16, Seed: 3}, {T: 0, N: 3, Seed: 4}}, {{T: 3, N: 9, Seed: 5}, {T: 1, N: 2, Seed: 6}}}},
+		{Limit: 1 << 20, Buf: 16, Segs: [][]WRec{{{T: 1, N: 40, Seed: 7}, {T: 2, N: 3, Seed: 8}, {T: 0, N: 70, Seed: 9}}}},
 	}
 }
